@@ -504,16 +504,17 @@ def _extract_transform(
     except ValueError:
         # This can fail when any dimension is shorter than 2 elements
         # Figure out fallback resolution if possible and try again
-        if crs_coord is None:
-            return None
-        if (original_transform := _extract_geo_transform(crs_coord)) is None:
+        fallback_res: Optional[Resolution] = None
+        if gcp or _xx.encoding.get("_transform", None) is not None:
+            # axis labels are pixel coordinates (GCP or rotated source), step is one pixel
+            fallback_res = Resolution(1, 1)
+        elif crs_coord is not None:
+            if (original_transform := _extract_geo_transform(crs_coord)) is not None:
+                fallback_res = resolution_from_affine(original_transform)
+        if fallback_res is None:
             return None
         try:
-            transform = affine_from_axis(
-                _xx.values,
-                _yy.values,
-                resolution_from_affine(original_transform),
-            )
+            transform = affine_from_axis(_xx.values, _yy.values, fallback_res)
         except ValueError:
             return None
 
